@@ -25,25 +25,27 @@ const pbPath = "github.com/jhump/grpctunnel/tunnelpb"
 
 // World is the resolved program all rules work on.
 type World struct {
-	Repo     string
-	GOARCH   string
-	Tags     string
-	Fset     *token.FileSet
-	Pkgs     []*packages.Package
-	Root     *packages.Package
-	PB       *packages.Package
-	Prog     *ssa.Program
-	SRoot    *ssa.Package
-	Funcs    []*ssa.Function // every function whose body comes from the root package (incl. closures, instantiations)
-	byName   map[string][]*ssa.Function
-	CG       *callgraph.Graph
-	NPkgs    int
-	NAllFn   int
-	NEdges   int
-	anchors  *Anchors
-	roles    *Roles
-	locks    *LockFacts
-	effCache map[*ssa.Function]*FuncEffects
+	Repo      string
+	GOARCH    string
+	Tags      string
+	Fset      *token.FileSet
+	Pkgs      []*packages.Package
+	Root      *packages.Package
+	PB        *packages.Package
+	Prog      *ssa.Program
+	SRoot     *ssa.Package
+	Funcs     []*ssa.Function // every function whose body comes from the root package (incl. closures, instantiations)
+	byName    map[string][]*ssa.Function
+	CG        *callgraph.Graph
+	NPkgs     int
+	NAllFn    int
+	NEdges    int
+	anchors   *Anchors
+	roles     *Roles
+	locks     *LockFacts
+	effCache  map[*ssa.Function]*FuncEffects
+	known     map[*ssa.Function]bool
+	privCache map[*ssa.Function]bool
 }
 
 // LoadError means the check could not run at all (exit 2).
@@ -73,7 +75,7 @@ func loadWorld(repo, goarch, tags string) (*World, error) {
 	if len(pkgs) < 2 {
 		return nil, &LoadError{fmt.Sprintf("expected >= 2 packages under %s, loaded %d", repo, len(pkgs))}
 	}
-	w := &World{Repo: repo, GOARCH: goarch, Tags: tags, Pkgs: pkgs, NPkgs: len(pkgs), byName: map[string][]*ssa.Function{}, effCache: map[*ssa.Function]*FuncEffects{}}
+	w := &World{Repo: repo, GOARCH: goarch, Tags: tags, Pkgs: pkgs, NPkgs: len(pkgs), byName: map[string][]*ssa.Function{}, effCache: map[*ssa.Function]*FuncEffects{}, privCache: map[*ssa.Function]bool{}}
 	var errs []string
 	for _, p := range pkgs {
 		for _, e := range p.Errors {
